@@ -1,6 +1,8 @@
 package props
 
 import (
+	"strconv"
+	"regexp"
 	"fmt"
 	"go/types"
 	"sort"
@@ -1795,6 +1797,44 @@ func c05Cache(c C) {
 		c.R.Check("K1", "cache/precheck/cached-tx-used-only-for-From", p.InstrPos(in), bad == "", "the cached transaction is only nil-tested and asked for its sender; other use: "+bad)
 	})
 	c.MustFind("K1", "cache/precheck/lookups", v, ngc, "GetTxFromCache calls in verifyTxsOnProcess")
+	// the pre-check runs on at least one worker whatever the machine: the worker count derived from the
+	// CPU count is a ceiling division (or bounded below by 1). With zero workers the loop body - the
+	// blacklist test, the signature check of uncached transactions - never runs and the block passes on
+	// small machines only.
+	nW := 0
+	ir.Instrs(v, func(in ssa.Instruction) {
+		st, ok := in.(*ssa.Store)
+		if !ok || !strings.Contains(ir.Render(st.Val), "runtime.NumCPU()") {
+			return
+		}
+		nW++
+		val := ir.Render(st.Val)
+		okW := false
+		if m := regexp.MustCompile(`^\(\(runtime\.NumCPU\(\) \+ (\d+)\) >> (\d+)\)$`).FindStringSubmatch(val); m != nil {
+			k, _ := strconv.Atoi(m[1])
+			sh, _ := strconv.Atoi(m[2])
+			okW = sh < 31 && k >= (1<<uint(sh))-1
+		} else if m := regexp.MustCompile(`^\(\(runtime\.NumCPU\(\) \+ (\d+)\) / (\d+)\)$`).FindStringSubmatch(val); m != nil {
+			k, _ := strconv.Atoi(m[1])
+			d, _ := strconv.Atoi(m[2])
+			okW = d > 0 && k >= d-1
+		} else if val == "runtime.NumCPU()" {
+			okW = true
+		}
+		if !okW {
+			// ... or bounded below explicitly before the workers are started
+			ir.Instrs(v, func(x ssa.Instruction) {
+				if _, isGo := x.(*ssa.Go); isGo {
+					name := strings.TrimPrefix(ir.Render(st.Addr), "&")
+					if ir.HasFact(ir.FactsAt(x), "lt(0,"+name+")") || ir.HasFact(ir.FactsAt(x), "le(1,"+name+")") {
+						okW = true
+					}
+				}
+			})
+		}
+		c.R.Check("K7", "precheck/at-least-one-worker", p.InstrPos(in), okW, "the worker count derived from the CPU count is never zero (ceiling division or explicit lower bound): "+val)
+	})
+	c.MustFind("K7", "precheck/at-least-one-worker", v, nW, "worker count derived from runtime.NumCPU()")
 }
 
 // c05Globals: package-level variables written on the execution path.
